@@ -383,6 +383,7 @@ KEY_OBS = [
     ("footprint-union-flattened", {"dist", "height", "aabb-z"}),
     ("pointset-footprint-membership", {"intersects", "sample-out"}),
     ("circle-intersects-3d-centres", {"intersects"}),
+    ("containsregion-ignores-height", {"containsRegion"}),
 ]
 
 
@@ -429,6 +430,8 @@ def _matching_keys(trig, descs, what, detail, obs):
         if key == "pointset-intersect-crash" and detail.get("exc") not in ("RecursionError", "AttributeError"):
             continue
         if key == "footprint-union-flattened" and obs.get("rtype") != "PolygonalRegion":
+            continue
+        if key == "containsregion-ignores-height" and not (detail.get("value") is True and detail.get("want") == "no"):
             continue
         yield key
 
@@ -548,7 +551,7 @@ def compare_region(ck, label, descs, op, exp, obs, probes, distidx, replay_base)
                     msg = f"below the lower bound {lbv}"
                 elif bits[q] == 1 and (ok is None or ok[q] == 1) and d > 1e-3:
                     msg = "positive on a member"
-                elif bits[q] == 0 and d <= 1e-9 and (ok is None or all_volume(descs) or ok[q] == 1):
+                elif bits[q] == 0 and d <= 1e-9 and (ok is None or ok[q] == 1 or (all_volume(descs) and not exp.get("coplanar"))):
                     msg = "zero on a non-member"
             if msg:
                 oz = None
@@ -780,7 +783,8 @@ def main(tier):
                 continue
             if want in ("yes", "no") and v != (want == "yes"):
                 ck.violation(f"{kname(da)}.{name}({kname(db)}){hnote} = {v}, the sets say {want}",
-                             dict(base, what=name, observed=v, expected=want), known_key=known_key_for(pe["trig"], [da, db], name, {}, {}))
+                             dict(base, what=name, observed=v, expected=want),
+                             known_key=known_key_for(pe["trig"], [da, db], name, {"value": v, "want": want}, {}))
             else:
                 ck.validated(1)
         for op, meth in OPS:
